@@ -14,7 +14,7 @@
    ans := write_dns q p downenc td, and for fst ans = Some d, r := client_extract buflen d (length d). *)
 From Coq Require Import List NArith ZArith Arith Bool Lia.
 From Iodine Require Import Base Codec CodecProofs Hostname DnsName DnsWf DnsMsg
-  DnsMsgProofs_Base DnsMsgProofs_Null DnsMsgProofs_Txt DnsMsgProofs_Name DnsMsgProofs_Mx DnsMsgProofs_MxClient DnsMsgProofs.
+  DnsMsgProofs_Base DnsMsgProofs_Null DnsMsgProofs_Txt DnsMsgProofs_Name DnsMsgProofs_Mx DnsMsgProofs_MxClient DnsMsgProofs DnsMsgExamples_C09.
 Import ListNotations.
 Local Open Scope N_scope.
 
@@ -109,74 +109,29 @@ Theorem C09_client_buffers : forall ty n,
 Proof. intros ty n. split; [apply client_fits_64k|apply client_fits_4k]. Qed.
 Print Assumptions C09_client_buffers.
 
-(* ---- non-vacuity: concrete runs of the model at and just above each capacity ---------------------- *)
+(* ---- non-vacuity (computed in DnsMsgExamples_C09.v): the setting is satisfiable, and the model
+   delivers exactly at each capacity and cuts just above it ------------------------------------------- *)
 
-Definition demo_labels : list (list N) :=
-  [[112; 97; 97; 97; 113]; [116]; [101; 120; 97; 109; 112; 108; 101]; [99; 111; 109]].   (* paaaq.t.example.com *)
-Definition demo_q (ty : N) : query := {| q_name := dotted demo_labels; q_type := ty; q_id := 4660 |}.
-Definition demo_p (n : N) : list N := map (fun i => (N.of_nat i * 37 + 11) mod 256) (seq 0 (N.to_nat n)).
-
-Fixpoint list_eqb (a b : list N) : bool :=
-  match a, b with
-  | [], [] => true
-  | x :: a', y :: b' => (x =? y) && list_eqb a' b'
-  | _, _ => false
-  end.
-
-(* (return value, extracted = payload?, extracted = prefix of that length?) *)
-Definition demo_run (ty e n buflen : N) : option (Z * bool * bool) :=
-  match fst (write_dns (demo_q ty) (demo_p n) e (0%nat, 0%nat)) with
-  | Some d => let r := client_extract (N.to_nat buflen) d (length d) in
-              Some (da_rv r, list_eqb (da_out r) (demo_p n),
-                    list_eqb (da_out r) (firstn (Z.to_nat (da_rv r)) (demo_p n)))
-  | None => None
-  end.
-
-Example C09_demo_setting : forall ty, wf_qname (q_name (demo_q ty)) /\ q_id (demo_q ty) < 65536 /\
+Example C09_example_setting : forall ty, wf_qname (q_name (demo_q ty)) /\ q_id (demo_q ty) < 65536 /\
   bytes_ok (demo_p 4096) /\ length (demo_p 4096) = N.to_nat 4096 /\ client_fits ty (N.to_nat 4096) (N.to_nat 65536).
-Proof.
-  intros ty. split; [|split; [|split; [|split]]].
-  - exists demo_labels. split; [discriminate|]. split; [|split; [reflexivity|vm_compute; lia]].
-    repeat constructor; cbn; lia.
-  - reflexivity.
-  - apply bytes_okb_ok. vm_compute. reflexivity.
-  - vm_compute. reflexivity.
-  - apply client_fits_64k. lia.
-Qed.
+Proof. exact C09_demo_setting. Qed.
 
-Example C09_demo_null :
+Example C09_example_boundaries :
+  (* (return value, extracted = payload, extracted = prefix of the payload) *)
   demo_run T_NULL 84 4096 65536 = Some (4096%Z, true, true) /\
   demo_run T_NULL 84 4097 65536 = Some (4096%Z, false, true) /\
-  demo_run T_PRIVATE 86 4096 4096 = Some (4096%Z, true, true).
-Proof. vm_compute. repeat split. Qed.
-
-Example C09_demo_txt :
   demo_run T_TXT 84 2559 65536 = Some (2559%Z, true, true) /\
   demo_run T_TXT 84 2560 65536 = Some (0%Z, false, true) /\
-  demo_run T_TXT 83 3071 65536 = Some (3071%Z, true, true) /\
-  demo_run T_TXT 83 3072 65536 = Some (0%Z, false, true) /\
   demo_run T_TXT 85 3071 65536 = Some (3071%Z, true, true) /\
-  demo_run T_TXT 85 3072 65536 = Some (0%Z, false, true) /\
-  demo_run T_TXT 86 3583 65536 = Some (3583%Z, true, true) /\
-  demo_run T_TXT 86 3584 65536 = Some (0%Z, false, true) /\
   demo_run T_TXT 82 4095 65536 = Some (4095%Z, true, true) /\
-  demo_run T_TXT 82 4096 65536 = Some (0%Z, false, true).
-Proof. vm_compute. repeat split. Qed.
-
-Example C09_demo_cname :
   demo_run T_CNAME 84 153 65536 = Some (153%Z, true, true) /\
   demo_run T_CNAME 84 154 65536 = Some (153%Z, false, true) /\
-  demo_run T_CNAME 83 183 65536 = Some (183%Z, true, true) /\
-  demo_run T_CNAME 83 184 65536 = Some (183%Z, false, true) /\
-  demo_run T_A 85 183 65536 = Some (183%Z, true, true) /\
-  demo_run T_A 85 184 65536 = Some (183%Z, false, true) /\
   demo_run T_A 86 214 4096 = Some (214%Z, true, true) /\
-  demo_run T_A 86 215 4096 = Some (214%Z, false, true).
-Proof. vm_compute. repeat split. Qed.
-
-Example C09_demo_mx :
   demo_run T_MX 84 4096 65536 = Some (4096%Z, true, true) /\
   demo_run T_SRV 86 4096 65536 = Some (4096%Z, true, true) /\
-  demo_run T_MX 84 2295 4096 = Some (2295%Z, true, true) /\
-  demo_run T_SRV 83 154 65536 = Some (154%Z, true, true).
-Proof. vm_compute. repeat split. Qed.
+  demo_run T_MX 84 2295 4096 = Some (2295%Z, true, true).
+Proof.
+  destruct C09_demo_null as [N1 [N2 _]]. destruct C09_demo_txt as [X1 [X2 [_ [_ [X5 [_ [_ [_ [X9 _]]]]]]]]].
+  destruct C09_demo_cname as [C1 [C2 [_ [_ [_ [_ [C7 _]]]]]]]. destruct C09_demo_mx as [M1 [M2 [M3 _]]].
+  exact (conj N1 (conj N2 (conj X1 (conj X2 (conj X5 (conj X9 (conj C1 (conj C2 (conj C7 (conj M1 (conj M2 M3))))))))))).
+Qed.
